@@ -13,7 +13,7 @@ from oracles import geom_o as GO
 from props._util import make_replay, rng_for
 
 LEVEL = "other"
-DEDUCTIVE = []
+DEDUCTIVE = [{"module": "rnapolis.clashfinder", "sidecar": "contracts.clashfinder_c", "targets": ["find_clashes"]}]
 TRUSTED = ["numpy", "scipy KD-tree", "csv module", "CPython 3.12"]
 ASSUMPTIONS = ["A-real; distances within 1e-6 of the radius sum are undecided"]
 EXPLANATION = "see DESIGN.md 4/C17"
